@@ -240,7 +240,13 @@ func (m *BlockManager) processRequest(ctx context.Context, request *downloadRequ
 
 		case <-request.abort:
 			m.cancelDownloaders(ctx, request.hash)
-			request.complete <- BlockAborted
+
+			// The requester stops listening when it is interrupted, so don't wait for it forever.
+			select {
+			case request.complete <- BlockAborted:
+			case <-interrupt:
+				return threads.Interrupted
+			}
 			return nil
 
 		case <-m.currentComplete:
